@@ -1,6 +1,7 @@
 package resource
 
 import (
+	"github.com/smart-core-os/sc-golang/internal/verifhook"
 	"sync"
 
 	"google.golang.org/grpc/codes"
@@ -43,6 +44,7 @@ func GetAndUpdate(mu *sync.RWMutex, get GetFn, change ChangeFn, save SaveFn) (ol
 		return oldValue, newValue, err
 	}
 
+	verifhook.Yield("GetAndUpdate:before-lock")
 	mu.Lock()
 	defer mu.Unlock()
 	oldValueAgain, _ := get()
